@@ -69,10 +69,45 @@ JudgeAtt(e) ==
 
 JudgeSpHp(e) == IF SpHp(e.N, e.sp, e.hp) THEN "ok" ELSE "C18:val2sphp"
 
+(***************************************************************************)
+(* Helpers no listed property names (spec growth): verdicts "EXT:..." are  *)
+(* reported as notes by the harness, never as violations.                  *)
+(***************************************************************************)
+JudgeTwos(e) == IF e.out # TwosComp(e.val, e.n) THEN "EXT:val2twoscomp"
+                ELSE IF e.outsm # SignMag(e.val, e.n) THEN "EXT:val2signmag" ELSE "ok"
+JudgeEsc(e) == IF e.out # EscapeAll(e.b) THEN "EXT:escapeall" ELSE "ok"
+JudgeHext(e) == IF e.out # HexTable(e.raw, e.cols) THEN "EXT:hextable" ELSE "ok"
+JudgeDop(e) == IF e.out # Dop2Str(e.h) THEN "EXT:dop2str" ELSE "ok"
+JudgeLookup(e) == IF e.out # Decode(IF e.which = "gnss" THEN Defs.gnsslist ELSE Defs.fixtype, e.x) THEN "EXT:" \o e.which \o "2str" ELSE "ok"
+JudgeKfv(e) == IF e.out # KeyFromVal(e.pairs, e.v) THEN "EXT:key_from_val" ELSE "ok"
+JudgeMon(e) ==
+    LET r == ProcessMonVer(e.sw, e.hw, e.exts) IN
+    IF e.out.swversion # r.sw THEN "EXT:process_monver-swversion"
+    ELSE IF e.out.hwversion # r.hw THEN "EXT:process_monver-hwversion"
+    ELSE IF e.out.fwversion # r.fw THEN "EXT:process_monver-fwversion"
+    ELSE IF e.out.romversion # r.rom THEN "EXT:process_monver-romversion"
+    ELSE IF e.out.gnss # r.gnss THEN "EXT:process_monver-gnss"
+    ELSE "ok"
+\* msgstr2bytes: the first class key carrying that class name, the second byte of the first message key carrying that name
+JudgeMsgStr(e) ==
+    LET cs == {i \in 1..Len(Defs.classes) : Defs.classes[i].name = e.cls}
+        ms == {i \in 1..Len(Defs.msgids) : Defs.msgids[i].name = e.id}
+    IN IF cs = {} \/ ms = {} THEN (IF e.out = <<>> THEN "ok" ELSE "EXT:msgstr2bytes-unknown-name-not-refused")
+       ELSE LET c == Defs.classes[CHOOSE i \in cs : \A j \in cs : i <= j].key
+                m == Defs.msgids[CHOOSE i \in ms : \A j \in ms : i <= j].key
+            IN IF e.out # <<c[1], m[2]>> THEN "EXT:msgstr2bytes" ELSE "ok"
+JudgeMsgCls(e) == IF e.out # <<e.c, e.i>> THEN "EXT:msgclass2bytes" ELSE "ok"
+JudgeAttSiz(e) == IF e.typ # SubSeq(e.t, 1, 1) THEN "EXT:atttyp"
+                  ELSE IF e.siz # (IF e.t = "CH" THEN -1 ELSE e.w) THEN "EXT:attsiz" ELSE "ok"
+
 Judge(e) == CASE e.kind = "int" -> JudgeInt(e) [] e.kind = "dec" -> JudgeDec(e) [] e.kind = "opaque" -> JudgeOpaque(e)
               [] e.kind = "nom" -> JudgeNom(e) [] e.kind = "ck" -> JudgeCk(e) [] e.kind = "time" -> JudgeTime(e)
               [] e.kind = "bits" -> JudgeBits(e) [] e.kind = "prot" -> JudgeProt(e) [] e.kind = "att" -> JudgeAtt(e)
-              [] e.kind = "sphp" -> JudgeSpHp(e) [] OTHER -> "unknown-kind"
+              [] e.kind = "sphp" -> JudgeSpHp(e)
+              [] e.kind = "twos" -> JudgeTwos(e) [] e.kind = "esc" -> JudgeEsc(e) [] e.kind = "hext" -> JudgeHext(e)
+              [] e.kind = "dop" -> JudgeDop(e) [] e.kind = "lookup" -> JudgeLookup(e) [] e.kind = "kfv" -> JudgeKfv(e)
+              [] e.kind = "mon" -> JudgeMon(e) [] e.kind = "msgstr" -> JudgeMsgStr(e) [] e.kind = "msgcls" -> JudgeMsgCls(e)
+              [] e.kind = "attsiz" -> JudgeAttSiz(e) [] OTHER -> "unknown-kind"
 
 Init == tid \in 1..Len(Traces) /\ verdict = "pending"
 Next == /\ verdict = "pending"
